@@ -19,6 +19,7 @@ import Model.Core
 import Model.Handshaker
 import Model.AcceptQ
 import Model.Inproc
+import Model.InprocPipe
 import Model.Ledger
 import Model.Bytes
 import Generated.Facts
@@ -125,6 +126,19 @@ def inprocStep (s : Inproc.State) (op : List String) : List (Inproc.State × Str
   | none => []
   | some o => (Inproc.step s o).map (fun r => (r.1, if r.2.isEmpty then "-" else " ".intercalate r.2))
 
+/-- an established inproc connection behind the line protocol -/
+def ipipeStep (s : InprocPipe.State) (op : List String) : List (InprocPipe.State × String) :=
+  let nat (x : String) : Nat := x.toNat?.getD 0
+  let bytes (x : String) : List Nat := ((ofHex x).getD []).map (·.toNat)
+  let o : Option InprocPipe.Op := match op with
+    | ["send", d, call, h, b] => some (.send (nat d) (nat call) (bytes h) (bytes b))
+    | ["recv", d, call] => some (.recv (nat d) (nat call))
+    | ["close", e] => some (.close (nat e))
+    | _ => none
+  match o with
+  | none => []
+  | some o => (InprocPipe.step s o).map (fun r => (r.1, if r.2.isEmpty then "-" else " ".intercalate r.2))
+
 instance : BEq Ledger.State := ⟨fun a b => a.msgs == b.msgs && a.next == b.next && a.bad == b.bad⟩
 
 structure State where
@@ -144,6 +158,7 @@ structure State where
   hs : List Handshaker.State := [Handshaker.init]
   wsl : List AcceptQ.State := [AcceptQ.init]
   inproc : List Inproc.State := [Inproc.init]
+  ipipe : List InprocPipe.State := [InprocPipe.init]
   stuck : Bool := false      -- after a disagreement the scenario is abandoned until the next `new`
 
 /-- returns (new state, agrees?, expected rendering, branch) or none for an unknown tag -/
@@ -165,6 +180,7 @@ def step (s : State) (tag : String) (args : List String) (o : String) : Option (
     | "m.hs" => some ({ s with hs := [Handshaker.init], stuck := false }, true, "-", "new")
     | "m.wsl" => some ({ s with wsl := [AcceptQ.init], stuck := false }, true, "-", "new")
     | "m.inproc" => some ({ s with inproc := [Inproc.init], stuck := false }, true, "-", "new")
+    | "m.ipipe" => some ({ s with ipipe := [InprocPipe.init], stuck := false }, true, "-", "new")
     | "m.mesh" =>
       let f := match args.getD 1 "" with
         | "bus" => Mesh.Flavor.bus
@@ -221,6 +237,9 @@ def step (s : State) (tag : String) (args : List String) (o : String) : Option (
   | "m.wsl" =>
     let (cs, exp) := advanceS s.wsl wslStep args o
     if cs.isEmpty then some ({ s with stuck := true }, false, exp, opName) else some ({ s with wsl := cs }, true, o, opName)
+  | "m.ipipe" =>
+    let (cs, exp) := advanceS s.ipipe ipipeStep args o
+    if cs.isEmpty then some ({ s with stuck := true }, false, exp, opName) else some ({ s with ipipe := cs }, true, o, opName)
   | "m.inproc" =>
     let (cs, exp) := advanceS s.inproc inprocStep args o
     if cs.isEmpty then some ({ s with stuck := true }, false, exp, opName) else some ({ s with inproc := cs }, true, o, opName)
